@@ -216,12 +216,15 @@ def find_chains(text, method_names):
 
 
 class Ctr:
-    def __init__(self):
-        self.n = 0
+    """one counter per lowering rule: generated names depend only on the ordinal of the site among the sites of
+    the same rule, so an unrelated edit elsewhere in the function does not rename them"""
 
-    def next(self):
-        self.n += 1
-        return self.n - 1
+    def __init__(self):
+        self.c = {}
+
+    def next(self, rule="x"):
+        self.c[rule] = self.c.get(rule, 0) + 1
+        return self.c[rule] - 1
 
 
 def bind(pat, expr, by_ref_closure):
@@ -365,7 +368,7 @@ def _r1(ch, ctr):
     if len(fargs) != 2:
         return None
     init, f = fargs
-    n = ctr.next()
+    n = ctr.next("R1")
     return ("{\n let mut acc_%d = %s;\n let mut it_%d = %s;\n let end_%d = %s;\n /*@L:R1*/ while it_%d < end_%d\n {\n %s\n let keep_%d = %s;\n"
             " if keep_%d { acc_%d = %s(acc_%d, it_%d); }\n it_%d += 1;\n }\n acc_%d\n}") % (
         n, init, n, a, n, b, n, n, bind(pat, "it_%d" % n, True), n, _as_block(body), n, n, f, n, n, n, n)
@@ -405,11 +408,11 @@ def _r2(ch, ctr):
     if not (c1 and c2 and c3):
         return None
     d = _arg(ch, uo).strip()
-    n = ctr.next()
-    return ("{\n let mut found_%d = None;\n let mut it_%d = %s;\n let end_%d = %s;\n /*@L:R2*/ while it_%d < end_%d\n {\n %s\n let item_%d = %s;\n"
-            " let pred_%d = { %s %s };\n if pred_%d { found_%d = Some(item_%d); break; }\n it_%d += 1;\n }\n"
+    n = ctr.next("R2")
+    return ("{\n let mut found_%d = None;\n let mut sit_%d = %s;\n let send_%d = %s;\n /*@L:R2*/ while sit_%d < send_%d\n {\n %s\n let item_%d = %s;\n"
+            " let pred_%d = { %s %s };\n if pred_%d { found_%d = Some(item_%d); break; }\n sit_%d += 1;\n }\n"
             " match found_%d { Some(%s) => %s, None => %s }\n}") % (
-        n, n, a, n, b, n, n, bind(c1[0], "it_%d" % n, False), n, _as_block(c1[1]),
+        n, n, a, n, b, n, n, bind(c1[0], "sit_%d" % n, False), n, _as_block(c1[1]),
         n, bind(c2[0], "item_%d" % n, True).replace("= &item_", "= item_"), c2[1], n, n, n, n,
         n, c3[0], _as_block(c3[1]), d)
 
@@ -421,12 +424,12 @@ def _r4(ch, ctr):
         return None
     pat, body, _ = cl
     recv = ch.prefix_text(len(ch.segs) - 1)
-    n = ctr.next()
+    n = ctr.next("R4")
     is_any = seg.name == "any"
-    return ("{\n let it_%d = %s;\n let mut res_%d = %s;\n let mut k_%d: usize = 0;\n /*@L:R4*/ while k_%d < it_%d.len() && %sres_%d\n {\n"
-            " %s\n let body_%d = %s;\n if %sbody_%d { res_%d = %s; }\n k_%d += 1;\n }\n res_%d\n}") % (
+    return ("{\n let ai_%d = %s;\n let mut res_%d = %s;\n let mut ak_%d: usize = 0;\n /*@L:R4*/ while ak_%d < ai_%d.len() && %sres_%d\n {\n"
+            " %s\n let ab_%d = %s;\n if %sab_%d { res_%d = %s; }\n ak_%d += 1;\n }\n res_%d\n}") % (
         n, recv, n, "false" if is_any else "true", n, n, n, "!" if is_any else "", n,
-        bind(pat, "it_%d.get(k_%d)" % (n, n), False), n, _as_block(body), "" if is_any else "!", n, n,
+        bind(pat, "ai_%d.get(ak_%d)" % (n, n), False), n, _as_block(body), "" if is_any else "!", n, n,
         "true" if is_any else "false", n, n)
 
 
@@ -436,17 +439,17 @@ def _r5(ch, ctr):
     if cl is None:
         return None
     recv = ch.prefix_text(len(ch.segs) - 2)
-    n = ctr.next()
-    return ("{\n let mut pos_%d: Option<usize> = None;\n let mut k_%d: usize = 0;\n /*@L:R5*/ while k_%d < %s.len()\n {\n %s\n"
-            " let body_%d = %s;\n if body_%d { pos_%d = Some(k_%d); break; }\n k_%d += 1;\n }\n pos_%d\n}") % (
-        n, n, n, recv, bind(cl[0], "&%s[k_%d]" % (recv, n), False), n, _as_block(cl[1]), n, n, n, n, n)
+    n = ctr.next("R5")
+    return ("{\n let mut pos_%d: Option<usize> = None;\n let mut pk_%d: usize = 0;\n /*@L:R5*/ while pk_%d < %s.len()\n {\n %s\n"
+            " let pbody_%d = %s;\n if pbody_%d { pos_%d = Some(pk_%d); break; }\n pk_%d += 1;\n }\n pos_%d\n}") % (
+        n, n, n, recv, bind(cl[0], "&%s[pk_%d]" % (recv, n), False), n, _as_block(cl[1]), n, n, n, n, n)
 
 
 def _r6(ch, ctr):
     recv = ch.prefix_text(len(ch.segs) - 3)
-    n = ctr.next()
-    return ("{\n vx_check(%s.len() > 0);\n let mut mi_%d: usize = 0;\n let mut k_%d: usize = 1;\n /*@L:R6*/ while k_%d < %s.len()\n {\n"
-            " if %s[k_%d] >= %s[mi_%d] { mi_%d = k_%d; }\n k_%d += 1;\n }\n &%s[mi_%d]\n}") % (
+    n = ctr.next("R6")
+    return ("{\n vx_check(%s.len() > 0);\n let mut mi_%d: usize = 0;\n let mut mk_%d: usize = 1;\n /*@L:R6*/ while mk_%d < %s.len()\n {\n"
+            " if %s[mk_%d] >= %s[mi_%d] { mi_%d = mk_%d; }\n mk_%d += 1;\n }\n &%s[mi_%d]\n}") % (
         recv, n, n, n, recv, recv, n, recv, n, n, n, n, recv, n)
 
 
@@ -456,22 +459,22 @@ def _r6b(ch, ctr):
     f = _arg(ch, ch.segs[-3]).strip()
     d = _arg(ch, ch.segs[-1]).strip()
     cl = parse_closure(f)
-    n = ctr.next()
-    call = ("{ %s %s }" % (bind(cl[0], "&%s[k_%d]" % (recv, n), False), cl[1])) if cl else "%s(&%s[k_%d])" % (f, recv, n)
-    return ("{\n let mut best_%d: Option<usize> = None;\n let mut k_%d: usize = 0;\n /*@L:R6*/ while k_%d < %s.len()\n {\n let v_%d = %s;\n"
-            " match best_%d { Some(b) => { if v_%d >= b { best_%d = Some(v_%d); } } None => { best_%d = Some(v_%d); } }\n k_%d += 1;\n }\n"
+    n = ctr.next("R6b")
+    call = ("{ %s %s }" % (bind(cl[0], "&%s[bk_%d]" % (recv, n), False), cl[1])) if cl else "%s(&%s[bk_%d])" % (f, recv, n)
+    return ("{\n let mut best_%d: Option<usize> = None;\n let mut bk_%d: usize = 0;\n /*@L:R6*/ while bk_%d < %s.len()\n {\n let bv_%d = %s;\n"
+            " match best_%d { Some(b) => { if bv_%d >= b { best_%d = Some(bv_%d); } } None => { best_%d = Some(bv_%d); } }\n bk_%d += 1;\n }\n"
             " match best_%d { Some(b) => b, None => %s }\n}") % (n, n, n, recv, n, call, n, n, n, n, n, n, n, n, d)
 
 
 def _r7(ch, ctr):
     ms = ch.methods()
-    n = ctr.next()
+    n = ctr.next("R7")
     # X.iter().flatten().flatten().cloned().collect::<Vec<_>>()
     if ms[-5:] == ["iter", "flatten", "flatten", "cloned", "collect"]:
         recv = ch.prefix_text(len(ch.segs) - 5)
-        return ("{\n let mut out_%d = Vec::new();\n let mut a_%d: usize = 0;\n /*@L:R7*/ while a_%d < %s.len()\n {\n let mut b_%d: usize = 0;\n"
-                " /*@L:R7*/ while b_%d < %s[a_%d].len()\n {\n let mut c_%d: usize = 0;\n /*@L:R7*/ while c_%d < %s[a_%d][b_%d].len()\n {\n"
-                " out_%d.push(%s[a_%d][b_%d][c_%d].clone());\n c_%d += 1;\n }\n b_%d += 1;\n }\n a_%d += 1;\n }\n out_%d\n}") % (
+        return ("{\n let mut out_%d = Vec::new();\n let mut ca_%d: usize = 0;\n /*@L:R7*/ while ca_%d < %s.len()\n {\n let mut cb_%d: usize = 0;\n"
+                " /*@L:R7*/ while cb_%d < %s[ca_%d].len()\n {\n let mut cc_%d: usize = 0;\n /*@L:R7*/ while cc_%d < %s[ca_%d][cb_%d].len()\n {\n"
+                " out_%d.push(%s[ca_%d][cb_%d][cc_%d].clone());\n cc_%d += 1;\n }\n cb_%d += 1;\n }\n ca_%d += 1;\n }\n out_%d\n}") % (
             n, n, n, recv, n, n, recv, n, n, n, recv, n, n, n, recv, n, n, n, n, n, n, n)
     # X.iter().map(|p| BODY).collect()
     if ms[-3:] == ["iter", "map", "collect"]:
@@ -479,9 +482,9 @@ def _r7(ch, ctr):
         if cl is None:
             return None
         recv = ch.prefix_text(len(ch.segs) - 3)
-        return ("{\n let mut out_%d = vx_collect_new();\n let mut k_%d: usize = 0;\n /*@L:R7*/ while k_%d < %s.len()\n {\n %s\n"
-                " let item_%d = %s;\n out_%d.push(item_%d);\n k_%d += 1;\n }\n out_%d\n}") % (
-            n, n, n, recv, bind(cl[0], "&%s[k_%d]" % (recv, n), False), n, _as_block(cl[1]), n, n, n, n)
+        return ("{\n let mut out_%d = vx_collect_new();\n let mut ck_%d: usize = 0;\n /*@L:R7*/ while ck_%d < %s.len()\n {\n %s\n"
+                " let citem_%d = %s;\n out_%d.push(citem_%d);\n ck_%d += 1;\n }\n out_%d\n}") % (
+            n, n, n, recv, bind(cl[0], "&%s[ck_%d]" % (recv, n), False), n, _as_block(cl[1]), n, n, n, n)
     return None
 
 
@@ -491,10 +494,10 @@ def _r12(ch, ctr):
     if cl is None:
         return None
     recv = ch.prefix_text(len(ch.segs) - 1)
-    n = ctr.next()
-    return ("{\n let mut k_%d: usize = 0;\n /*@L:R12*/ while k_%d < %s.len()\n {\n let keep_%d = { %s %s };\n"
-            " if keep_%d { k_%d += 1; } else { %s.remove(k_%d); }\n }\n}") % (
-        n, n, recv, n, bind(cl[0], "&%s[k_%d]" % (recv, n), False), cl[1], n, n, recv, n)
+    n = ctr.next("R12")
+    return ("{\n let mut rk_%d: usize = 0;\n /*@L:R12*/ while rk_%d < %s.len()\n {\n let rkeep_%d = { %s %s };\n"
+            " if rkeep_%d { rk_%d += 1; } else { %s.remove(rk_%d); }\n }\n}") % (
+        n, n, recv, n, bind(cl[0], "&%s[rk_%d]" % (recv, n), False), cl[1], n, n, recv, n)
 
 
 def _find_for_flatten(text):
@@ -527,9 +530,9 @@ def _find_for_flatten(text):
             a, b = t.start, toks[mm[k]].end
 
             def mk(ctr, recv=recv, pat=pat, body=body, a=a, b=b, orig=text[a:toks[k].start]):
-                n = ctr.next()
-                repl = ("{\n let mut a_%d: usize = 0;\n /*@L:R3*/ while a_%d < %s.len()\n {\n let mut b_%d: usize = 0;\n"
-                        " /*@L:R3*/ while b_%d < %s[a_%d].len()\n {\n let %s = &%s[a_%d].as_slice()[b_%d];\n %s\n b_%d += 1;\n }\n a_%d += 1;\n }\n}") % (
+                n = ctr.next("R3")
+                repl = ("{\n let mut fa_%d: usize = 0;\n /*@L:R3*/ while fa_%d < %s.len()\n {\n let mut fb_%d: usize = 0;\n"
+                        " /*@L:R3*/ while fb_%d < %s[fa_%d].len()\n {\n let %s = &%s[fa_%d].as_slice()[fb_%d];\n %s\n fb_%d += 1;\n }\n fa_%d += 1;\n }\n}") % (
                     n, n, recv, n, n, recv, n, pat, recv, n, n, body, n, n)
                 return a, b, repl, orig
             return mk
@@ -605,7 +608,7 @@ def _find_for_container(text, ctx):
         body = text[toks[k].start:toks[mm[k]].end]
         a, b = t.start, toks[mm[k]].end
         orig = text[a:toks[k].start]
-        n = ctx["ctr"].next()
+        n = ctx["ctr"].next({"mut": "R14", "shared": "R16", "value": "R15"}[mode])
 
         def mark_inner(bd, var, md):
             # inner `for Q in var` inherits the mode
@@ -619,11 +622,11 @@ def _find_for_container(text, ctx):
             return a, b, repl, orig, "R14"
         if mode == "shared":
             bd = mark_inner(body, pat, "shared")
-            repl = ("{\n let mut a_%d: usize = 0;\n /*@L:R16*/ while a_%d < %s.len()\n {\n let %s = %s.vx_at(a_%d);\n %s\n a_%d += 1;\n }\n}") % (
+            repl = ("{\n let mut sa_%d: usize = 0;\n /*@L:R16*/ while sa_%d < %s.len()\n {\n let %s = %s.vx_at(sa_%d);\n %s\n sa_%d += 1;\n }\n}") % (
                 n, n, expr, pat, expr, n, bd, n)
             return a, b, repl, orig, "R16"
         bd = mark_inner(body, pat, "value")
-        repl = ("{\n let mut it_%d = %s;\n /*@L:R15*/ while it_%d.len() > 0\n {\n let %s = it_%d.vx_pop_front();\n %s\n }\n}") % (n, expr, n, pat, n, bd)
+        repl = ("{\n let mut vt_%d = %s;\n /*@L:R15*/ while vt_%d.len() > 0\n {\n let %s = vt_%d.vx_pop_front();\n %s\n }\n}") % (n, expr, n, pat, n, bd)
         return a, b, repl, orig, "R15"
     return None
 
@@ -674,7 +677,7 @@ def _find_entry_idiom(text, ctr):
     e = m.group(1)
     blk_end = mm[k]
     block = text[toks[k].start:toks[blk_end].end]
-    n = ctr.next()
+    n = ctr.next("R13")
     block2 = re.sub(r"\b%s\s*\.\s*insert\s*\(" % re.escape(e), "%s.vx_insert_vacant(key_%d, " % (recv, n), block)
     if block2 == block:
         raise Unsupported("entry idiom without insert")
